@@ -17,7 +17,7 @@ PROP = {'lean': 'MpsProps.C11',
                'Mps.C11.gen_sample',
                'Mps.C11.gen_taproot_sign_hashes',
                'Mps.C11.gen_taproot_sign'],
- 'suites': [{'name': 'nonce', 'quick': 240, 'thorough': 6000}],
+ 'suites': [{'name': 'nonce', 'quick': 240, 'thorough': 6000, 'shards': 8}],
  'propfields': {'nonce': ['distinct']},
  'level_text': 'Proof: the arguments of the hash functions in the FROST round-1 nonce derivation (key = KDF(share); data = ssidDigest(64) || m || a(32)) '
                'and in taproot.Sign (t(32) || P(32) || m with t = d xor hash_aux(a); a = reader bytes or atomic counter) are injective functions of '
